@@ -13,3 +13,4 @@ def check(rep, tier):
     rep.run(containers.run_exact, rep, tier, clauses=('K-structure',))
     rep.run(rules_numeric.run, rep, tier, clauses=('N-shape', 'N-jvp-space'))
     rep.run(rules_numeric.run_astype, rep)
+    rep.run(rules_numeric.run_lowprec, rep, tier)
